@@ -1,0 +1,81 @@
+//go:build verif
+
+// Contracts for govc (see /verif/DESIGN.md). Comment-only file: no executable code.
+
+package icstate
+
+// ---------------------------------------------------------------------------
+// C34: unstaking pays out exactly what the expired slots hold; the voting power in use is the sum
+// of bond, delegation and unbonding totals (math/big values as mathematical integers)
+// ---------------------------------------------------------------------------
+//@ property C34
+// unstake_seen: running sum of every slot value read through Unstake.GetValue - RemoveUnstake's
+// result is stated against it: the amount returned is the sum of the values it read, and it reads
+// values only of slots that expire at the given height
+//@ smt all (declare-ghost unstake_seen Int)
+//@ func (u *Unstake) GetValue() (r)
+//@   arith int
+//@   pure
+//@   requires u != nil
+//@   ensures [field] r == u.Value
+//@   opt ghost:unstake_seen ghost(unstake_seen) + big(u.Value)
+//@ func (u *Unstake) GetExpire() (r)
+//@   arith int
+//@   pure
+//@   requires u != nil
+//@   ensures [field] r == u.Expire
+//@ func (a *AccountState) setDirty()
+//@   arith int
+//@   requires a != nil
+//@   modifies a.snapshot
+//@   ensures [dirty] a.snapshot == nil
+
+//@ spec unstakesOk(us) = forall i int :: {us[i]} 0 <= i && i < len(us) ==> us[i] != nil && us[i].Value != nil
+//@ func (a *AccountState) RemoveUnstake(height) (ra, err)
+//@   arith int
+//@   requires a != nil && unstakesOk(a.unstakes)
+//@   modifies a.unstakes, a.snapshot, ghost(unstake_seen)
+//@   callpre GetValue: u.Expire == height
+//@   ensures [sum_of_expired] err == nil ==> ra != nil && fresh(ra) && big(ra) == ghost(unstake_seen) - old(ghost(unstake_seen))
+//@   ensures [kept_on_error] err != nil ==> a.unstakes == old(a.unstakes) && a.snapshot == old(a.snapshot)
+//@   ensures [only_on_expiry] err == nil ==> len(a.unstakes) < old(len(a.unstakes))
+//@   ensures [rest_not_expired] err == nil ==> (forall i int :: {a.unstakes[i]} 0 <= i && i < len(a.unstakes) ==> a.unstakes[i] != nil && a.unstakes[i].Expire != height)
+//@   ensures [marked_changed] err == nil ==> a.snapshot == nil
+//@   loop 0: invariant -1 <= rangeindex && rangeindex < len(a.unstakes) && a.unstakes == old(a.unstakes) && a.snapshot == old(a.snapshot)
+//@   loop 0: invariant ra != nil && fresh(ra)
+//@   loop 0: invariant big(ra) == ghost(unstake_seen) - old(ghost(unstake_seen))
+//@   loop 0: invariant len(tmp) <= rangeindex + 1 && (tmp == nil || fresh(tmp)) && (forall i int :: {tmp[i]} 0 <= i && i < len(tmp) ==> tmp[i] != nil && tmp[i].Expire != height)
+//@   loop 0: invariant unstakesOk(a.unstakes)
+
+// the voting power in use
+//@ func (a *accountData) GetVoting() (r)
+//@   arith int
+//@   pure
+//@   requires a != nil && a.totalBond != nil && a.totalDelegation != nil
+//@   ensures [sum] r != nil && fresh(r) && big(r) == big(a.totalBond) + big(a.totalDelegation)
+//@ func (a *accountData) UsingStake() (r)
+//@   arith int
+//@   pure
+//@   requires a != nil && a.totalBond != nil && a.totalDelegation != nil && a.totalUnbond != nil && allocated(a.totalBond) && allocated(a.totalDelegation) && allocated(a.totalUnbond)
+//@   ensures [sum] r != nil && fresh(r) && big(r) == big(a.totalBond) + big(a.totalDelegation) + big(a.totalUnbond)
+//@ func (a *accountData) GetVotingPower() (r)
+//@   arith int
+//@   pure
+//@   requires a != nil && a.stake != nil && a.totalBond != nil && a.totalDelegation != nil && a.totalUnbond != nil && allocated(a.stake) && allocated(a.totalBond) && allocated(a.totalDelegation) && allocated(a.totalUnbond)
+//@   ensures [rest] r != nil && fresh(r) && big(r) == big(a.stake) - (big(a.totalBond) + big(a.totalDelegation) + big(a.totalUnbond))
+
+// a stake is never negative
+//@ func (a *AccountState) SetStake(v) (err)
+//@   arith int
+//@   requires a != nil && v != nil
+//@   modifies a.stake, a.snapshot
+//@   ensures [non_negative] err == nil <==> big(v) >= 0
+//@   ensures [set] err == nil ==> a.stake == v && a.snapshot == nil
+//@   ensures [kept] err != nil ==> a.stake == old(a.stake)
+
+// a P-Rep counts for the network totals exactly while its status is Active
+//@ func (ps *prepStatusData) IsActive() (r)
+//@   arith int
+//@   pure
+//@   requires ps != nil
+//@   ensures [status] r == (ps.status == Active)
